@@ -1,11 +1,13 @@
 package main
 
 import (
+	"fmt"
 	"go/ast"
 	"go/token"
 	"go/types"
 
 	"golang.org/x/tools/go/cfg"
+	"golang.org/x/tools/go/ssa"
 )
 
 // E13: open/close pairing on go/cfg. For one function, an "open" call and a
@@ -272,4 +274,108 @@ func lockPairing(w *World, r *Report, rule string, pkgs []string, consequence st
 		}
 	}
 	return n
+}
+
+// ssaPairing is a second, path-condition based view of open/close pairing
+// for functions without deferred closes: within each loop iteration (or the
+// function, outside loops) the opens and closes can be matched one to one such
+// that the close is reached under exactly the condition the open was, and lies
+// after it.  An early exit between the two, or a close under a weaker or
+// stronger test, makes the two conditions differ.  "" = balanced.
+func ssaPairing(w *World, f *ssa.Function, isOpen, isClose func(*ssa.Call) bool) string {
+	if f == nil {
+		return "no body"
+	}
+	sym := NewSym(w)
+	type ev struct {
+		call *ssa.Call
+		ctx  *ssa.BasicBlock // loop header or entry
+		cond *pcF
+	}
+	var opens, closes []ev
+	for _, b := range f.Blocks {
+		for _, in := range b.Instrs {
+			if _, isDefer := in.(*ssa.Defer); isDefer {
+				return "deferred calls: not decided by this view"
+			}
+			c, ok := in.(*ssa.Call)
+			if !ok {
+				continue
+			}
+			start := f.Blocks[0]
+			if l, in := loopOf(f, b); in {
+				start = l.Header
+			}
+			switch {
+			case isOpen(c):
+				opens = append(opens, ev{c, start, sym.PathCond(start, b, nil)})
+			case isClose(c):
+				closes = append(closes, ev{c, start, sym.PathCond(start, b, nil)})
+			}
+		}
+	}
+	if len(opens) != len(closes) {
+		return fmt.Sprintf("%d opens, %d closes", len(opens), len(closes))
+	}
+	// forward reachability (back edges excluded)
+	reaches := func(a, b *ssa.BasicBlock) bool {
+		seen := map[*ssa.BasicBlock]bool{}
+		var walk func(x *ssa.BasicBlock) bool
+		walk = func(x *ssa.BasicBlock) bool {
+			if x == b {
+				return true
+			}
+			if seen[x] {
+				return false
+			}
+			seen[x] = true
+			for _, s := range x.Succs {
+				if s.Dominates(x) {
+					continue
+				}
+				if walk(s) {
+					return true
+				}
+			}
+			return false
+		}
+		return walk(a)
+	}
+	used := map[int]bool{}
+	for _, o := range opens {
+		matched := false
+		for j, c := range closes {
+			if used[j] || c.ctx != o.ctx {
+				continue
+			}
+			if pcEquiv(o.cond, c.cond) != "" {
+				continue
+			}
+			ob, cb := o.call.Block(), c.call.Block()
+			after := false
+			if ob == cb {
+				for _, in := range ob.Instrs {
+					if in == ssa.Instruction(o.call) {
+						after = true
+						break
+					}
+					if in == ssa.Instruction(c.call) {
+						break
+					}
+				}
+			} else {
+				after = reaches(ob, cb) && !reaches(cb, ob)
+			}
+			if !after {
+				continue
+			}
+			used[j] = true
+			matched = true
+			break
+		}
+		if !matched {
+			return "an open at " + w.PosStr(o.call.Pos()) + " has no close that is reached under exactly the same condition after it"
+		}
+	}
+	return ""
 }
